@@ -1383,6 +1383,7 @@ class UnitDatabase(Singleton):
 
         # 1st thing is putting the same unit for a given quantity type (both sides)
         for c in (category_to_unit_and_exp1, category_to_unit_and_exp2):
+            is_simple = len(c) == 1
             for category, unit_exp in list(c.items()):
                 unit, exp = unit_exp
                 quantity_type = self.GetCategoryQuantityType(category)
@@ -1393,27 +1394,38 @@ class UnitDatabase(Singleton):
                     # update the unit and the related value (scaled according to the exponent).
                     if c is category_to_unit_and_exp1:
                         value1 = self._ConvertMatching(
-                            quantity_type, unit, used_unit_for_quantity_type, exp, value1
+                            quantity_type, unit, used_unit_for_quantity_type, exp, value1, is_simple
                         )
                     else:
                         value2 = self._ConvertMatching(
-                            quantity_type, unit, used_unit_for_quantity_type, exp, value2
+                            quantity_type, unit, used_unit_for_quantity_type, exp, value2, is_simple
                         )
                     unit_exp[0] = used_unit_for_quantity_type
         return category_to_unit_and_exp1, category_to_unit_and_exp2, value1, value2
 
     def _ConvertMatching(
-        self, quantity_type: str, from_unit: str, to_unit: str, exp: int, value: Any
+        self,
+        quantity_type: str,
+        from_unit: str,
+        to_unit: str,
+        exp: int,
+        value: Any,
+        is_simple: bool = True,
     ) -> Any:
         """
         Converts a value whose unit appears with the given exponent in a quantity (i.e.: a value
         in m2 is scaled by the m -> cm ratio squared when m is replaced by cm).
+
+        :param is_simple:
+            Whether the unit is the only one of its quantity (an amount in degC is shifted when
+            converted to K, an amount in degC.s is only scaled when converted to K.s).
         """
-        if exp == 1 or from_unit == to_unit:
+        if from_unit == to_unit:
+            return value
+        zero = self.Convert(quantity_type, from_unit, to_unit, 0.0)
+        if exp == 1 and (is_simple or zero == 0.0):
             return self.Convert(quantity_type, from_unit, to_unit, value)
-        ratio = self.Convert(quantity_type, from_unit, to_unit, 1.0) - self.Convert(
-            quantity_type, from_unit, to_unit, 0.0
-        )
+        ratio = self.Convert(quantity_type, from_unit, to_unit, 1.0) - zero
         return value * ratio**exp
 
     def _DoOperationResultingInNewQuantity(
